@@ -67,6 +67,11 @@ func (d *Document) BlockStringValueContentRawString(ref int) string {
 	return unsafebytes.BytesToString(d.BlockStringValueContentRawBytes(ref))
 }
 
+var (
+	escapedTripleQuote = []byte(`\"""`)
+	tripleQuote        = []byte(`"""`)
+)
+
 func (d *Document) BlockStringValueContentBytes(ref int) []byte {
 
 	// Implements https://spec.graphql.org/October2021/#BlockStringValue()
@@ -76,6 +81,10 @@ func (d *Document) BlockStringValueContentBytes(ref int) []byte {
 
 	// split the raw value into lines
 	rawValue := d.BlockStringValueContentRawBytes(ref)
+	if bytes.Contains(rawValue, escapedTripleQuote) {
+		// \""" is the only escape sequence of a block string and stands for """
+		rawValue = bytes.ReplaceAll(rawValue, escapedTripleQuote, tripleQuote)
+	}
 	lines := splitBytesIntoLines(rawValue)
 
 	// find the common indent size (-1 means no common indent)
